@@ -1042,6 +1042,9 @@ class Engine:
                     return
                 except EngineError:
                     pass
+            if t.kind == "int" and (is_zint(a) or is_zint(b)):
+                self.set(fr, ins, z3.If(c, zint(a, t.bits), zint(b, t.bits)))
+                return
             if t.kind == "int" and not isinstance(a, (Ptr, Undef)) and not isinstance(b, (Ptr, Undef)):
                 if t.bits == 1:
                     self.set(fr, ins, z3.If(c, boolz(a), boolz(b)))
